@@ -106,7 +106,10 @@ def run(tier, seed):
                             (must if o == 'listed' else mustnot if o == 'not-listed' else set()).add(key)
                 sheets.append((titles[s], rows))
             path = os.path.join(d, 'wb%d.xlsx' % b)
-            realcode.write_xlsx(path, sheets)
+            # tabs that are not worksheets (chart sheets) in front of / between the worksheets: keys still carry the worksheet's own title
+            charts = [(0, 'Overview chart')] + ([(2, 'Mid chart')] if len(sheets) > 1 else []) if b % 3 == 1 else []
+            realcode.write_xlsx(path, sheets, chartsheets=charts)
+            chk.count('book:chartsheets:%d' % len(charts))
             chk.seen(('book', b))
             chk.count('book:' + kind)
             # one parser, the check toggled between translations: the gate follows the setting in force at each call
